@@ -408,7 +408,10 @@ func init() {
 			if r.intn(2) == 0 {
 				// ---- Bitcoin: lnd.Client.CreateOpeningTransaction over FundPsbt / FinalizePsbt / PublishTransaction
 				rig := newLndWalletRig(rateEstimator{v: 1000})
-				rig.wk.plan = fundPlan{nIn: 1 + r.intn(3), before: genPlan(), after: genPlan()}
+				rig.wk.plan = fundPlan{nIn: 1 + r.intn(3), before: genPlan(), after: genPlan(), nested: r.intn(3) == 0}
+				if rig.wk.plan.nested {
+					hist["btc: funded from nested-segwit coins"]++
+				}
 				e := newSpendEnv(fmt.Sprint("o", r.intn(3)), onchain.BitcoinCsv, amount)
 				rawTxHex, _, txid, fee, vout, err := rig.client.CreateOpeningTransaction(&e.params)
 				// the output list as the wallet funded it
